@@ -748,11 +748,11 @@ func c08GenTCP(g *Gen) {
 		g.Case(4, nil, z)
 		g.Count("wrapper-no-renew")
 	}
-	g.Case(4, nil, []int64{600, 0, 900, 5, 3})
+	g.Case(4, nil, []int64{1500, 0, 2000, 5, 3}) // 1000 ms left of 3000: renewed; then 2995 ms left: not
 	g.Case(4, nil, []int64{0, 0, 3, 0})
 	g.Count("wrapper-mixed")
 	if g.Thorough() {
-		g.Case(4, nil, []int64{1000, 0, 400, 400, 400, 5, 1500, 5, 2300, 400})
+		g.Case(4, nil, []int64{1000, 0, 300, 300, 900, 5, 2500, 300}) // margins of 400 ms and more
 		g.Count("wrapper-mixed")
 	}
 }
